@@ -35,6 +35,17 @@ def jobs(tier):
     return js
 
 
+def sys_jobs(hs, tier):
+    q = tier == "quick"
+    sj = [wmmlib.sys_job(hs, "sys", 0, 2, "l1,x"), wmmlib.sys_job(hs, "sys", 0, 3, "l1,l2,x"), wmmlib.sys_job(hs, "sys", 0, 2, "r,l1,l2,l3,x"),
+          wmmlib.sys_job(hs, "sys", 0, 2, "r,x"), wmmlib.sys_job(hs, "sys", 0, 2, "l1,x,l2,x"), wmmlib.sys_job(hs, "sysbd", 0, 2, "l1,l2,l3,l4,l5,x")]
+    if not q:
+        sj += [wmmlib.sys_job(hs, "sys", 0, 3, "r,l1,l2,l3,x", deadline=1500), wmmlib.sys_job(hs, "sys", 0, 3, "l1,x,l2,x", deadline=1500),
+               wmmlib.sys_job(hs, "sys", 1, 1, "l1,x", "l1,x", deadline=1500), wmmlib.sys_job(hs, "sys", 1, 2, "l1,x", "l1,x", deadline=1500),
+               wmmlib.sys_job(hs, "sys", 1, 1, "l1,x,l2", "x", deadline=1500)]
+    return sj
+
+
 def run(ctx):
     ctx.rule = ("(a) all schedules up to the preemption bound of 1-3 short-lived threads (log, exit) + an optional live thread "
                 "against the preemptible backend; (b) exhaustive sweep over the number N of threads that start, log once and "
@@ -50,13 +61,7 @@ def run(ctx):
     # below Engine B's granularity: real registration, log calls and thread exit (context invalidation) against real backend polls
     # incl. the clean-up of invalidated contexts, at every atomic operation and with every load value the C++11 model admits
     hs = wmmlib.build_sys()
-    q = ctx.tier == "quick"
-    sj = [wmmlib.sys_job(hs, "sys", 0, 2, "l1,x"), wmmlib.sys_job(hs, "sys", 0, 3, "l1,l2,x"), wmmlib.sys_job(hs, "sys", 0, 2, "r,l1,l2,l3,x"),
-          wmmlib.sys_job(hs, "sys", 0, 2, "r,x"), wmmlib.sys_job(hs, "sys", 0, 2, "l1,x,l2,x"), wmmlib.sys_job(hs, "sysbd", 0, 2, "l1,l2,l3,l4,l5,x")]
-    if not q:
-        sj += [wmmlib.sys_job(hs, "sys", 0, 3, "r,l1,l2,l3,x", deadline=1500), wmmlib.sys_job(hs, "sys", 0, 3, "l1,x,l2,x", deadline=1500),
-               wmmlib.sys_job(hs, "sys", 1, 1, "l1,x", "l1,x", deadline=1500), wmmlib.sys_job(hs, "sys", 1, 2, "l1,x", "l1,x", deadline=1500),
-               wmmlib.sys_job(hs, "sys", 1, 1, "l1,x,l2", "x", deadline=1500)]
+    sj = sys_jobs(hs, ctx.tier)
     wmmlib.run_sys(ctx, sj)
     ctx.assumptions.append("frontend operations are atomic steps; backend preemptible at QUILL_VERIF_YIELD(1..4) and poll boundaries (sweep: poll boundaries only)")
 
